@@ -307,6 +307,11 @@ class EvalAnalysis:
                 and is_const(core.a[1]) and isinstance(cval(core.a[1]), int):
             inner = self.label(core.a[0].a[0])
             return None if inner is None else "%s.index[%d]" % (inner, cval(core.a[1]))
+        # state held by the forecaster object (forecaster._y, getattr(forecaster, "_y", default), ...): not this split's window
+        if isinstance(core, T) and core.op == "attr" and core.a[0] == FORECASTER:
+            return "forecaster.%s (state of the forecaster)" % core.a[1]
+        if is_call(core, fn("builtins.getattr")) and len(core.a[1]) >= 2 and core.a[1][0] == FORECASTER and is_const(core.a[1][1]):
+            return "forecaster.%s (state of the forecaster)" % cval(core.a[1][1])
         if core == P("y"):
             return "y (whole series)"
         if core == P("X"):
